@@ -525,7 +525,7 @@ def shard_main(pid: str, tier: str, spec_file: str, out_file: str) -> int:
             from vlib.suite import run_suite
             a = spec["args"]
             run_suite(ctx, a["tests"], a["domains"],
-                      rounds=a.get("rounds", 1))
+                      rounds=a.get("rounds", 1), oob=a.get("oob", False))
         else:
             mod.run_shard(ctx, spec.get("args", {}))
     except BaseException as e:  # noqa
